@@ -619,6 +619,27 @@ func (q *checker) bcheckAssignment(lhs *a.Expr, op t.ID, rhs *a.Expr) error {
 		}
 	}
 
+	// A pure method can read any of its receiver's fields. Storing to "r.x" or
+	// "r.x[i]" therefore invalidates facts like "r.get() < 8".
+	lhsRoot := lhs
+	for {
+		if o := lhsRoot.Operator(); (o == a.ExprOperatorSelector) || (o == a.ExprOperatorIndex) {
+			lhsRoot = lhsRoot.LHS().AsExpr()
+			continue
+		}
+		break
+	}
+	if lhsRoot != lhs {
+		if err := q.facts.update(func(x *a.Expr) (*a.Expr, error) {
+			if mentionsUserMethodCallOn(x, lhsRoot, 0) {
+				return nil, nil
+			}
+			return x, nil
+		}); err != nil {
+			return err
+		}
+	}
+
 	if lhs.MType().IsNumType() && ((op != t.IDEq) || (rhs.ConstValue() == nil)) {
 		lb, err := q.bcheckTypeExpr(lhs.MType())
 		if err != nil {
@@ -641,6 +662,42 @@ func (q *checker) bcheckAssignment(lhs *a.Expr, op t.ID, rhs *a.Expr) error {
 	}
 
 	return nil
+}
+
+// mentionsUserMethodCallOn returns whether n contains a call to a user-defined
+// (not a built-in base.etc) method whose receiver mentions root.
+func mentionsUserMethodCallOn(n *a.Expr, root *a.Expr, depth uint32) bool {
+	if (n == nil) || (depth > a.MaxExprDepth) {
+		return false
+	}
+	depth++
+
+	if recv, _, _, ok := n.IsMethodCall(); ok && recv.Mentions(root) {
+		if typ := n.LHS().AsExpr().MType(); (typ == nil) || !typ.IsFuncType() ||
+			(typ.Receiver().Innermost().QID()[0] != t.IDBase) {
+			return true
+		}
+	}
+
+	if mentionsUserMethodCallOn(n.LHS().AsExpr(), root, depth) ||
+		mentionsUserMethodCallOn(n.MHS().AsExpr(), root, depth) {
+		return true
+	}
+	if (n.Operator() != t.IDXBinaryAs) && mentionsUserMethodCallOn(n.RHS().AsExpr(), root, depth) {
+		return true
+	}
+	for _, o := range n.Args() {
+		if o.Kind() == a.KArg {
+			if mentionsUserMethodCallOn(o.AsArg().Value(), root, depth) {
+				return true
+			}
+		} else if o.Kind() == a.KExpr {
+			if mentionsUserMethodCallOn(o.AsExpr(), root, depth) {
+				return true
+			}
+		}
+	}
+	return false
 }
 
 func (q *checker) bcheckAssignment1(lhs *a.Expr, lTyp *a.TypeExpr, op t.ID, rhs *a.Expr) (bounds, error) {
